@@ -66,6 +66,7 @@ inductive EdgeData where
   | spline (ps : List Pt)
   | polyLine (ps : List Pt)
   | project (labels : List String)
+  | invalid   -- data `factory.create` raises on (e.g. `Angle(0, axis)`: "Angle should be between 0 and 2*pi")
   deriving DecidableEq, Repr
 
 def insertStr (l : String) : List String → List String
@@ -82,6 +83,7 @@ def EdgeData.kind : EdgeData → String
   | .spline _ => "spline"
   | .polyLine _ => "polyLine"
   | .project _ => "project"
+  | .invalid => "invalid"
 
 /-- what `Edge.description` prints after the two vertex indices -/
 def EdgeData.payload : EdgeData → String
@@ -90,6 +92,7 @@ def EdgeData.payload : EdgeData → String
   | .spline ps => "(" ++ " ".intercalate (ps.map Pt.descr) ++ ")"
   | .polyLine ps => "(" ++ " ".intercalate (ps.map Pt.descr) ++ ")"
   | .project ls => "(" ++ " ".intercalate (sortStr ls) ++ ")"
+  | .invalid => ""
 
 structure Op where
   id : Nat
@@ -536,6 +539,84 @@ def step (m : Mesh) : Step → Mesh
 
 def run (m : Mesh) (h : List Step) : Mesh := h.foldl step m
 
+/-! ### an exception inside `assemble()` (round 6c)
+
+`EdgeList.add` looks for an existing edge on the vertex pair first; only when there is none `factory.create` runs, and it
+raises (`ValueError`) for data it cannot make an edge of.  The exception leaves `Mesh.assemble` in the middle of the loop:
+everything the earlier operations contributed stays, the failing operation has its vertices in the vertex list and the edges
+of its earlier beams in the edge list, but no block, no `assembled` entry, no patch sides, no faces; nothing is rolled back. -/
+
+/-- one beam of `EdgeList.add_from_operation`; the flag says that `factory.create` raised -/
+def eaddX (o : Op) (vi : List Nat) (acc : List Edge × Bool) (c : Nat × Nat) : List Edge × Bool :=
+  if acc.2 then acc
+  else
+    let v1 := vi.getD c.1 0
+    let v2 := vi.getD c.2 0
+    if opEdge o c.1 c.2 = .invalid ∧ acc.1.any (fun e => samePair e.v1 e.v2 v1 v2) = false then (acc.1, true)
+    else (eadd acc.1 v1 v2 (opEdge o c.1 c.2), false)
+
+def addEdgesX (es : List Edge) (o : Op) (vi : List Nat) : List Edge × Bool :=
+  CBV.Gen.beamOrder.foldl (eaddX o vi) (es, false)
+
+/-- the loop body of `Mesh.assemble` with the exception: vertices first, then the edges; the rest only when nothing raised -/
+def addOpX (slaves : List String) (l : Lists) (o : Op) : Lists × Bool :=
+  let r := addVerts slaves o l.verts
+  let e := addEdgesX l.edges o r.2
+  if e.2 then ({ l with verts := r.1, edges := e.1 }, true)
+  else ({ addOp slaves l o with edges := e.1 }, false)
+
+/-- the loop of `Mesh.assemble`, left at the first exception -/
+def assembleLoopX (slaves : List String) (deleted : List Nat) : List Op → Lists → Lists × Bool
+  | [], l => (l, false)
+  | o :: rest, l =>
+      if o.id ∈ deleted then assembleLoopX slaves deleted rest l
+      else if (addOpX slaves l o).2 then addOpX slaves l o
+      else assembleLoopX slaves deleted rest (addOpX slaves l o).1
+
+/-- `Mesh.assemble` with the exception: the state afterwards and whether it raised -/
+def assembleX (m : Mesh) : Mesh × Bool :=
+  let r := assembleLoopX (slavePatches m) m.deleted m.depot m.lists
+  ({ m with lists := r.1 }, r.2)
+
+inductive ErrX where
+  | notAssembled | undefined | create   -- `create`: the ValueError of `factory.create`
+  deriving DecidableEq, Repr
+
+/-- `Mesh.write` with the exception of the implicit `assemble()` -/
+def writeX (m : Mesh) : Mesh × Except ErrX Text :=
+  let a := if isAssembled m then (m, false) else assembleX m
+  if a.2 then (a.1, .error .create)
+  else if !isAssembled a.1 then (a.1, .error .notAssembled)
+  else
+    let m2 := gradeBlocks a.1
+    if m2.lists.blocks.all Block.isDefined then (m2, .ok (render m2)) else (m2, .error .undefined)
+
+/-- `Mesh.backport` with the exception of the final `assemble()`: the depot is updated and the lists cleared before it -/
+def backportX (m : Mesh) : Option (Mesh × Bool) :=
+  if isAssembled m then
+    some (assembleX (clear { m with depot := backportDepot m.lists.verts (m.lists.blocks.zip m.lists.assembled) m.depot }))
+  else none
+
+/-- one call, exceptions included (`T_C12_stepX_ok`: this is `step` when no operation carries invalid edge data) -/
+def stepX (m : Mesh) : Step → Mesh
+  | .assemble => (assembleX m).1
+  | .backport => ((backportX m).map (·.1)).getD m
+  | .write => (writeX m).1
+  | s => step m s
+
+def observeX (m : Mesh) : Step → String
+  | .assemble => if (assembleX m).2 then "err:create" else "."
+  | .write => match (writeX m).2 with
+      | .ok t => "ok:" ++ join "\t" t
+      | .error .notAssembled => "err:notAssembled"
+      | .error .undefined => "err:undefined"
+      | .error .create => "err:create"
+  | .backport => match backportX m with
+      | some (m', false) => "ok:" ++ join ";" (m'.depot.map (fun o => s!"{o.id}={join "|" (o.corners.map V3.toStr)}"))
+      | some (_, true) => "err:create"
+      | none => "err:notAssembled"
+  | _ => "."
+
 /-! ### line protocol -/
 
 def optStr (s : String) : Option String := if s = "-" then none else some s
@@ -557,6 +638,7 @@ def parseEdge? (s : String) : Option EdgeData :=
   | ["spline", ps] => (parsePts? ps).map .spline
   | ["polyLine", ps] => (parsePts? ps).map .polyLine
   | ["project", ls] => some (.project (ls.splitOn "+"))
+  | ["invalid"] => some .invalid
   | _ => none
 
 def parseChops? (s : String) : Option (List Chop) :=
@@ -639,7 +721,7 @@ def stateDigest (m : Mesh) : String :=
 def handleHist (args : List String) : Option String := do
   let steps ← args.mapM parseStep?
   let r := steps.foldl (fun (acc : Mesh × List String) s =>
-    (step acc.1 s, (observe acc.1 s ++ "@" ++ stateDigest (step acc.1 s)) :: acc.2)) ({}, [])
+    (stepX acc.1 s, (observeX acc.1 s ++ "@" ++ stateDigest (stepX acc.1 s)) :: acc.2)) ({}, [])
   some (join "#" r.2.reverse)
 
 def handle (op : String) (args : List String) : Option String :=
